@@ -3,6 +3,7 @@ from vf.runner import Acc
 from vf.spec import opcodes as T
 
 ID = "C14"
+OPT_QUICK_ALL = True      # every partition also in a child interpreter started with -O
 LEVEL = "exploration"
 TECHNIQUE = "complete enumeration of the five opcode tables, their service-action tables, the status table and all 256 opcode values against an independent T10 table"
 RULE = ("every named entry of spc/sbc/ssc/smc/mmc, every entry of every service-action table, every SCSI_STATUS entry, every pair "
